@@ -83,5 +83,11 @@ func (p *Pubrel) Unpack(r io.Reader) error {
 	if !ValidateCode(PUBREL, p.Code) {
 		return codes.ErrProtocol
 	}
-	return p.Properties.Unpack(bufr, PUBREL)
+	if err := p.Properties.Unpack(bufr, PUBREL); err != nil {
+		return err
+	}
+	if bufr.Len() != 0 { // bytes left over inside the remaining length
+		return codes.ErrMalformed
+	}
+	return nil
 }
